@@ -66,6 +66,7 @@ type OpEngine struct {
 	deep         bool
 	draws        []drawRec
 	dataMode     bool
+	noCompare    bool
 	curLabel     string
 	ElemChecks   int
 	curDims      []sym.Poly
@@ -238,8 +239,8 @@ func (e *OpEngine) publicOp(fn *ssa.Function) (name string, hasRecv bool, ok boo
 		return "", false, false
 	}
 	if sig.Recv() != nil {
-		if !types.Identical(sig.Recv().Type(), e.A.CPUPtr) {
-			return "", false, false
+		if !types.Identical(sig.Recv().Type(), e.A.CPUPtr) || fn.Name() == "Gradient" {
+			return "", false, false // Gradient is an accessor (nil when there is no gradient), not an operation
 		}
 		return fn.Name(), true, true
 	}
@@ -325,7 +326,7 @@ func (e *OpEngine) static(m *interp.Machine, fn *ssa.Function, args []interp.Val
 		si := e.W.InfoOf(sp)
 		ii := e.W.InfoOf(ip)
 		ii.Elem, ii.Rng, ii.Has = si.Elem, si.Rng, true
-		if e.dataMode && si.Has && name != "RandU" && name != "RandN" {
+		if e.dataMode && !e.noCompare && si.Has && name != "RandU" && name != "RandN" {
 			e.compareData(key, e.P.FuncPos(fn), ip, si.Elem, e.curLabel+" / "+e.describeCall(n))
 		}
 		// S1a: no tensor escapes without a gradient context
